@@ -129,6 +129,8 @@ def chunk_ops(rng, data, mode):
 def run_c03(tier, seed):
     chk = Check("C03", tier, seed)
     broken = prep(chk, "C03")
+    from lifeprops import IdleProbe
+    idle = IdleProbe(chk, tier)      # a request sent after a long pause is answered like any other (real sockets, background; joined below)
     rng = random.Random(seed)
     cases = []
     n = 1500 if tier == "quick" else 20000
@@ -276,6 +278,8 @@ def run_c03(tier, seed):
             chk.violation("stalled-by-other-client", "requests were not answered while %s: replies %s (%s)" % (c["desc"], got, res0), dict(case=c["line"], desc=c["desc"], impl=o.raw[:2000]))
             continue
         validated += 1
+    idle_ok = idle.join("C03")
+    chk.notes.append("idle connections: pauses of %s s on plain / TLS 1.2 / TLS 1.3 connections, %d answered afterwards" % (idle.times, idle_ok))
     if broken and not chk.violations:
         chk.violation("proof-broken", broken, dict(broken=broken, theorem="GRP.C03"), True)
     chk.coverage.update(
@@ -292,6 +296,8 @@ def run_c03(tier, seed):
 def replay(path):
     r = json.load(open(path))["replay"]
     vlib.build_model(); vlib.build_harness()
+    if r.get("mode") == "idle":
+        print("impl :", vlib.run_harness(["idle", str(r["idle_seconds"])], "", timeout=r["idle_seconds"] + 120)[1].strip()[:6000]); return
     line = r.get("case")
     if not line:
         print("replay has no case line:", r); return
@@ -386,6 +392,17 @@ def run_c04(tier, seed):
             if req[0] in MAPCMDS and h[0] not in "mn":
                 continue
             cases.append(dict(vals=[G.request_bytes(*req)], default=h, desc="%s with handler result %s" % (req_desc(*req), h[:40])))
+    # replies with many elements (around the parser's pre-allocation bound, its doublings and every size constant the tree under
+    # test has that the pinned tree does not): the frame must carry as many elements as its header announces, and the reply to
+    # the request pipelined behind it must follow as a frame of its own
+    import thresholds as T
+    for ar in T.extend([1023, 1024, 1025, 2049, 4097], 3, 70000, limit=6):
+        flat = "a[" + ",".join("b(%s)" % L.hx(b"e%d" % (i % 10)) for i in range(ar)) + "]"
+        ints = "a[" + ",".join("i(%s)" % L.hx(b"%d" % (i % 10)) for i in range(ar)) + "]"
+        for h in ("m" + flat, "ma[b(78)," + flat + ",b(79)]", "m" + ints):
+            for req in (("GET", [b"k"]), ("HKEYS", [b"k"])):
+                cases.append(dict(vals=[G.request_bytes(*req), G.request_bytes("PING", []), G.request_bytes("ECHO", [b"after"])], default=h,
+                                  desc="%s with a handler result of %d elements (%s...), then PING and ECHO" % (req_desc(*req), ar, h[:24])))
     for inj in INJ:
         for req in [(b"NOSUCH" + inj, []), (b"GET", [b"k" + inj]), (b"SET", [b"k", b"v", b"EX" + inj]), (b"ECHO", [inj]), (b"PING", [inj]), (b"CONFIG", [b"GET", inj]),
                     (b"CONFIG", [b"BAD" + inj]), (b"SELECT", [b"1" + inj]), (b"AUTH", [inj, inj]), (b"ZADD", [b"k", b"1" + inj, b"m"])]:
@@ -875,6 +892,35 @@ def run_c11(tier, seed):
             cases.append(dict(reqs=reqs, k=k, j=j, mode=mode, line=L.mkcase(([(0, "f" + L.hx(data[:k]))] if k else []) + [(0, mode)], default="mb(76)"),
                               desc="RPUSH c x ; RPUSH big <%d elements> cut at byte %d of %d (%s)" % (n_el - 2, k, len(data), "half-close" if mode == "e" else "full close")))
         cases.append(dict(reqs=reqs, k=len(data), j=2, mode="e", line=L.mkcase([(0, "f" + L.hx(data)), (0, "e")], default="mb(76)"), desc="RPUSH c x ; RPUSH big <%d elements> complete" % (n_el - 2)))
+    # requests written as text lines (the inline form telnet / netcat / health checkers send; the pinned tree answers it with a
+    # protocol error and closes): whatever a tree does with a COMPLETE line, a line whose CR LF has not arrived is a partial
+    # request - a stream cut inside a line leads to exactly the handler calls of the same stream cut at its last complete line
+    inline_cases = []
+    for pi, lines_ in enumerate([[b"SET k v", b"DEL a b c"], [b"DEL k1 k2 k3"], [b"RPUSH l a b c", b"LPOP l"], [b"MSET a 1 b 2", b"EXPIRE k 100"], [b"PING", b"SETEX k 10 value"]]):
+        data = b"".join(l + b"\r\n" for l in lines_)
+        ends, off = [0], 0
+        for l in lines_:
+            off += len(l) + 2; ends.append(off)
+        for k in range(len(data) + 1):
+            base = max(e for e in ends if e <= k)
+            mode = "e" if (k + pi) % 2 == 0 else "x"
+            inline_cases.append(dict(inline=pi, k=k, base=base, line=L.mkcase(([(0, "f" + L.hx(data[:k]))] if k else []) + [(0, mode)], default="mb(76)"),
+                                     desc="text-line requests %r cut at byte %d of %d (%s)" % (data, k, len(data), "half-close" if mode == "e" else "full close")))
+    good_inline = run_cases(chk, inline_cases)
+    at = {(c["inline"], c["k"]): [x[4] for x in L.calls_of(c["iobs"].conns[0][1])] for c in good_inline}
+    for c in good_inline:
+        if not basic_monitors(chk, "C11", c):
+            continue
+        got, want = at[(c["inline"], c["k"])], at.get((c["inline"], c["base"]))
+        if want is not None and got != want:
+            chk.violation("partial-line-executed", "%s: handler calls %s; the same stream ending at its last complete line (byte %d) gives %s" % (c["desc"], got, c["base"], want),
+                          dict(case=c["line"], desc=c["desc"], got=got, expected=want))
+            continue
+        err = L.monitor_release(c["iobs"].conns[0][0], c["iobs"].conns[0][1], c["iobs"].final)
+        if err:
+            chk.violation("not-released", "%s: %s" % (c["desc"], err), dict(case=c["line"], desc=c["desc"]))
+            continue
+        corr(chk, c)
     good = run_cases(chk, cases)
     validated, distinct = 0, set()
     # expected calls of complete requests: taken from the run of the uncut pipeline (k = len) of the same pipeline
@@ -910,7 +956,7 @@ def run_c11(tier, seed):
     if broken and not chk.violations:
         chk.violation("proof-broken", broken, dict(broken=broken, theorem="GRP.C11"), True)
     chk.coverage.update(
-        evaluations=len(cases), distinct_nontrivial=len(distinct),
+        evaluations=len(cases) + len(inline_cases), distinct_nontrivial=len(distinct),
         rule="%d pipelines of 1..4 valid client requests from the grammar; EVERY byte offset of each pipeline as the end of the stream (complete enumeration per pipeline), "
              "alternating half-close (replies still writable) and full close (writes fail); non-trivial = distinct (pipeline, offset > 0)" % npipes,
         exhaustive=True, traces_validated_against_impl=validated,
